@@ -143,6 +143,15 @@ class Ext:
     def __init__(self, name):
         self.name = name
 
+    def __eq__(self, o):
+        return isinstance(o, Ext) and o.name == self.name
+
+    def __ne__(self, o):
+        return not self.__eq__(o)
+
+    def __hash__(self):
+        return hash(('ext', self.name))
+
     def __repr__(self):
         return '<ext {}>'.format(self.name)
 
@@ -469,6 +478,12 @@ class Cx:
         self.depth = 0
         self.hooks = {}            # function qual -> python callable
         self.ext_hooks = {}        # external dotted name -> python callable
+        # constants of external modules (POSIX conventions, as on the
+        # systems picotool's path handling is written for)
+        self.ext_consts = {'os.path.sep': '/', 'os.sep': '/',
+                           'os.path.pardir': '..', 'os.path.curdir': '.',
+                           'os.pardir': '..', 'os.curdir': '.',
+                           'os.linesep': '\n', 'os.path.altsep': None}
         self.module_vars = {}      # (module, name) -> value (mutable globals)
         self._disp = {}
         self._gcache = {}
@@ -1004,7 +1019,10 @@ class Cx:
         if isinstance(v, ModVal):
             return self.global_name(v.module, name)
         if isinstance(v, Ext):
-            return Ext(v.name + '.' + name)
+            full = v.name + '.' + name
+            if full in self.ext_consts:
+                return self.ext_consts[full]
+            return Ext(full)
         if isinstance(v, CE.NTValue):
             try:
                 return self.conv(getattr(v, name))
@@ -2449,6 +2467,14 @@ def call_ext(cx, name, args, kw):
             return Ext('bool')
         if isinstance(v, (int, BV)):
             return Ext('int')
+        if isinstance(v, float):
+            return Ext('float')
+        if v is None:
+            return Ext('NoneType')
+        if isinstance(v, dict):
+            return Ext('dict')
+        if isinstance(v, (set, frozenset)):
+            return Ext(type(v).__name__)
         raise CxError('type() here')
     if n == 'repr':
         if is_sym(args[0]) or isinstance(args[0], Seq):
